@@ -175,8 +175,8 @@ def run(tier, seed, log, model_runs=True, enlarged=False):
     sizes = Counter()
     try:
         nbig = 1 if tier == "quick" else 6
-        for i in range(ndocs + nbig):
-            d = simpledocs.simple_doc(rng) if i < ndocs else simpledocs.big_doc(rng, rng.choice([60, 150, 400]) if tier != "quick" else 150)
+        for i in range(-1, ndocs + nbig):
+            d = simpledocs.all_strings_doc() if i < 0 else simpledocs.simple_doc(rng) if i < ndocs else simpledocs.big_doc(rng, rng.choice([60, 150, 400]) if tier != "quick" else 150)
             sizes[len(d.get_records()) + sum(len(b.get_records()) for b in d.bundles)] += 1
             try:
                 n, fails, lw = run_doc(d, scratch, i)
@@ -202,7 +202,7 @@ def run(tier, seed, log, model_runs=True, enlarged=False):
     coverage = {
         "evaluations": total,
         "distinct_nontrivial": ndocs * 4 * 4,
-        "rule": "generated documents with non-ASCII content from the intersection of the JSON/XML/RDF spaces, plus large "
+        "rule": "one fixed document holding every string of the pool (multi-byte, astral, line separators, text that is not in Unicode normalisation form C), generated documents with non-ASCII content from the intersection of the JSON/XML/RDF spaces, plus large "
                 "documents (serialisations of 20-150 KiB dense in multi-byte characters, beyond the 8 KiB / 64 KiB stream buffers); for each: 4 "
                 "formats x 4 destination kinds (returned string, text stream, binary stream, file path) compared, then every "
                 "artefact x 10 ways of reading it (content str/bytes, text/binary stream, path, prov.read on stream/path with and "
